@@ -120,6 +120,37 @@ CHECKS = {
              "evaluate_model in a seeded arrival order; prediction columns and chain ids must follow the chain-major concatenation in "
              "exactly that order.",
         note="All samples of a holder share their shared parameters (the file format stores them once)."),
+    "C04": dict(
+        engine="twinsim", design="6.4", category="fault_enumeration",
+        technique=TECH + ": twin runs of a whole simulated round differing only in the injected fault store.poison-masked; artefact-by-artefact logical digests; training-set reference; fail-stop probes",
+        text="The whole round (train x chains -> distance x chunks -> scores x chunks -> select, real CLI processes) is made a "
+             "deterministic function of (files, seeds, entropy, schedule) and run twice: on the clean screen file and on a copy whose "
+             "masked observation cells were overwritten (junk, 0, 1, negative, NaN, inf, mixed). Arrays handed to the model, every theta "
+             "file, distance chunk, score chunk and the selected plate must be identical. The training arrays are also compared with "
+             "the documented training set built from reference rows (both shipped models, single-effect table included), and "
+             "poisoned observed values / masked rows must be refused (function and CLI level).",
+        note="Found two genuine defects of the interaction model on the pinned tree (trained on all-control rows; accepted negative/NaN), "
+             "both repaired by fix: commits. <= 40 rows, <= 2 chains x 3 samples."),
+    "C17": dict(
+        engine="samplesim", design="6.17", category="exploration",
+        technique=TECH + ": stepper harness around sampling.sample (event history of a fake model, model.dirty fault) plus real train_model processes launched in seeded order under different process entropy; generator fingerprints",
+        text="sampling.sample drives a fake MCMC / VI model logging reset / set_rng / step / record; the event history must be "
+             "reset + set_rng before the first step, exactly b + n*t steps, records right after steps b+t, ..., b+n*t, a complete "
+             "collection; VI: one sample(n) call. The generator handed to the model is fingerprinted (first 1024 raw outputs): equal "
+             "for equal (seed, n_chains, index) under any launch order / entropy / interleaved global draws, different and disjoint for "
+             "different indices. A sampled share runs real train_model processes for every chain index (one relaunched later) with "
+             "counters wrapped around the real sampler.",
+        note="Order of reset vs set_rng is not part of the statement. A chance overlap of two 64-bit streams within 1024 outputs has probability < 2^-40."),
+    "C18": dict(
+        engine="twinsim", design="6.18", category="exploration",
+        technique=TECH + ": twin runs differing only in process entropy (global numpy/stdlib state, OS entropy, interleaved unrelated draws, fresh interpreter under another PYTHONHASHSEED); output and global-state equality; tripwires for attribution",
+        text="Every randomised operation the statement lists, at function level and as CLI processes with --seed, is executed as a twin "
+             "pair with identical inputs and identically seeded generator but different process entropy and k unrelated global draws in "
+             "between (thorough: second twin in a fresh interpreter under another hash seed). Judged: outputs identical; global numpy and "
+             "stdlib state unchanged by the operation. Tripwires on numpy's global sampling functions and on seedless default_rng() name "
+             "the call sites in the finding's signature.",
+        note="Found the two defects the property anticipates on the pinned tree (calculate_scores ignored --seed; the Gibbs samplers drew "
+             "from global state / OS entropy), both repaired by fix: commits."),
 }
 
 NOT_APPLICABLE = {
